@@ -46,13 +46,15 @@ BODY = {"": b"", "a": b"int x;\n", "b": b"int y;\n", "ab": b"int x;\n\n", "A": b
 
 
 def materialise(case, d):
+    """the code base consists of TWO directories, d and d + "-legacy" (the first a character prefix of the second)"""
     paths = {}
     subdirs = ["", "lib", "lib/deep", "src"]
+    os.makedirs(d + "-legacy", exist_ok=True)
     for i, f in enumerate(case["files"], start=1):
         k = f["kind"]
         sub = "excl" if k == "excl" else subdirs[i % len(subdirs)]
         ext = ".txt" if k == "nosrc" else (".c" if i % 2 else ".h")
-        p = os.path.join(d, sub, f"f{i}{ext}")
+        p = os.path.join(d if (i // 2) % 2 == 0 else d + "-legacy", sub, f"f{i}{ext}")
         os.makedirs(os.path.dirname(p), exist_ok=True)
         if k == "sym":
             os.symlink(paths[f["target"]], p)
@@ -98,7 +100,7 @@ def check_chunk(args):
             tg = tags_of(case)
             stats["evals"] += 1
             try:
-                cb = CodeBase(root, exclude_patterns=["excl/"])
+                cb = CodeBase(root, root + "-legacy", exclude_patterns=["excl/"])
                 got = report.find_duplicates(cb)
                 got_sets = {frozenset(inv.get(os.path.abspath(str(p)), str(p)) for p in g) for g in got}
                 buf, out = io.StringIO(), io.StringIO()
